@@ -144,6 +144,35 @@ def gen_import_arms(man):
                          and contains(vm, ol, cl, ["closure", ".", "function", ".", "name", ".", "is_empty", "(", ")"])
                          and contains(vm, ol, cl, [".", "frames"]) and contains(vm, ol, cl, [".", "any", "("]))
     info["is_loading_is_body_frame_of_module"] = bool(loading_shape)
+    # does is_loading_module walk the WHOLE caller chain of fibers?  loop `while let Some(..) = fiber { .. fiber = <..>.caller; }`
+    # starting at self.fiber  -> true;  no loop, `.caller` consulted a fixed number of times -> false;  anything else: unknown
+    walks = False
+    if checks_loading:
+        ol, cl = fn_body(vm, "is_loading_module")
+        w = find_seq(vm, ["while", "let", "Some", "("], ol, cl)
+        ncaller = len(find_all_seq(vm, [".", "caller"], ol, cl))
+        has_loop = any(contains(vm, ol, cl, [k]) for k in ("while", "loop", "for"))
+        if w >= 0:
+            wo, wc = body_after(vm, w)
+            var = vm[match_group(vm, w + 3) + 2].text            # while let Some(x) = <var>
+            step = find_seq(vm, [var, "="], wo, wc)
+            e = step
+            while e >= 0 and vm[e].text != ";":
+                e += 1
+            steps_to_caller = step >= 0 and texts(vm, step + 2, e)[-2:] == [".", "caller"]
+            ret_true = contains(vm, wo, wc, ["return", "true"])
+            starts_at_fiber = contains(vm, ol, w, ["self", ".", "fiber"])
+            if steps_to_caller and ret_true and starts_at_fiber and ncaller == 1:
+                walks = True
+            else:
+                raise ValueError("is_loading_module: loop of unrecognised shape")
+        elif not has_loop and ncaller >= 1:
+            walks = False
+        elif not has_loop and ncaller == 0:
+            walks = False
+        else:
+            raise ValueError("is_loading_module: unrecognised shape")
+    info["loading_walks_chain"] = bool(walks)
     # 367eb72: built-ins only `if self.active_module == module`
     guarded = False
     if stages["builtins"] >= 0 and stages["call"] >= 0:
@@ -340,6 +369,7 @@ def gen_import_arms(man):
     L.append("Definition gen_registry_hit_checks_loading : bool := %s." % b(info["registry_hit_checks_loading"]))
     L.append("Definition gen_is_loading_is_body_frame_of_module : bool := %s." % b(info["is_loading_is_body_frame_of_module"]))
     L.append("Definition gen_builtins_init_guarded : bool := %s." % b(info["builtins_init_guarded"]))
+    L.append("Definition gen_loading_walks_chain : bool := %s." % b(info["loading_walks_chain"]))
     L.append("Definition gen_comp_head : string := %s." % coq_str(info["comp_head"]))
     L.append("Definition gen_comp_kind : string := %s." % coq_str(info["comp_kind"]))
     L.append("Definition gen_comp_line_fmt : string := %s." % coq_str(info["comp_line_fmt"]))
